@@ -184,9 +184,30 @@ def render(T, extra=""):
 class Layout:
     """Sizes, alignments and offsets by the C rules of the statement."""
 
-    def __init__(self, align, ptr_bytes):
+    def __init__(self, align, ptr_bytes, consts=None):
         self.align = align
         self.ptr = ptr_bytes
+        self.consts = consts or {}
+
+    def static_count(self, c):
+        """Element count when it is known from the definition alone (number, or expression over constants)."""
+        if isinstance(c, bool):
+            return None
+        if isinstance(c, int):
+            return max(0, c)
+        if isinstance(c, list):
+            ids = []
+
+            def walk(a):
+                if a[0] == "id":
+                    ids.append(a[1])
+                for x in a[1:]:
+                    if isinstance(x, list):
+                        walk(x)
+            walk(c[1])
+            if all(i in self.consts for i in ids):
+                return max(0, eval_expr(c[1], lambda n: self.consts[n], lambda T: self.size_align(T)[0]))
+        return None
 
     def size_align(self, T):
         k = T[0]
@@ -208,9 +229,9 @@ class Layout:
             return self.ptr, INT_ALIGN[self.ptr]
         if k == "arr":
             s, a = self.size_align(T[1])
-            c = T[2]
-            if isinstance(c, int) and not isinstance(c, bool) and s is not None:
-                return s * max(0, c), a
+            n = self.static_count(T[2])
+            if n is not None and s is not None:
+                return s * n, a
             return None, a
         if k == "struct":
             offs, size, a = self.struct_layout(T)
@@ -307,7 +328,7 @@ class RefParser:
         self.ctx = ctx
         self.big = endian in (">", "!")
         self.align = align
-        self.layout = Layout(align, ptr_bytes)
+        self.layout = Layout(align, ptr_bytes, consts)
         self.consts = consts or {}
         self.mask = {}        # byte offset -> bit mask of data-carrying bits
         self.leaves = []      # (path, offset, nbytes)
